@@ -76,25 +76,25 @@ def mayPrivate (cfg : Config) (envUser : Option Name) : Bool :=
 
 /-- the destination of a CONNECT / of a relayed datagram denotes the local machine: a loopback
     address in 4-byte, 16-byte or IPv4-mapped form, an unspecified address, the empty host, a
-    well-known local name in any letter case, or a loopback / unspecified IP literal sent as text -/
+    well-known local name in any letter case, or a loopback / unspecified IP literal sent as text (an IPv6 zone `%…` after the literal is ignored, as the resolver ignores it) -/
 def DenotesLocal (parseIP : Name → Option IP) (d : Dst) : Prop :=
   (d.ip ≠ [] ∧ (isLoopback d.ip = true ∨ isUnspecified d.ip = true)) ∨
   (d.ip = [] ∧ d.fqdn = []) ∨
   (d.ip = [] ∧ asciiLower d.fqdn ∈ wellKnownV4 ++ wellKnownV6) ∨
-  (d.ip = [] ∧ d.fqdn ≠ [] ∧ ∃ ip, parseIP d.fqdn = some ip ∧ (isLoopback ip = true ∨ isUnspecified ip = true))
+  (d.ip = [] ∧ d.fqdn ≠ [] ∧ ∃ ip, parseIPLiteral parseIP d.fqdn = some ip ∧ (isLoopback ip = true ∨ isUnspecified ip = true))
 
 /-- the destination is a private-network address (RFC 1918 / RFC 4193, any form incl. text) -/
 def DenotesPrivate (parseIP : Name → Option IP) (d : Dst) : Prop :=
   (d.ip ≠ [] ∧ isPrivate d.ip = true) ∨
   (d.ip = [] ∧ d.fqdn ≠ [] ∧ isWellKnownV4 d.fqdn = false ∧ isWellKnownV6 d.fqdn = false ∧
-    ∃ ip, parseIP d.fqdn = some ip ∧ isPrivate ip = true)
+    ∃ ip, parseIPLiteral parseIP d.fqdn = some ip ∧ isPrivate ip = true)
 
 /-- a loopback destination as the (unrepaired and repaired) code treats it for UDP ASSOCIATE requests,
     whose address field is the client's own address: literal loopback addresses and local names only -/
 def DenotesLoopbackStrict (parseIP : Name → Option IP) (d : Dst) : Prop :=
   (d.ip ≠ [] ∧ isLoopback d.ip = true) ∨
   (d.ip = [] ∧ asciiLower d.fqdn ∈ wellKnownV4 ++ wellKnownV6) ∨
-  (d.ip = [] ∧ d.fqdn ≠ [] ∧ ∃ ip, parseIP d.fqdn = some ip ∧ isLoopback ip = true)
+  (d.ip = [] ∧ d.fqdn ≠ [] ∧ ∃ ip, parseIPLiteral parseIP d.fqdn = some ip ∧ isLoopback ip = true)
 
 theorem parsedLoopback4_loop : isLoopback parsedLoopback4 = true ∧ isPrivate parsedLoopback4 = false := by decide
 theorem parsedLoopback6_loop : isLoopback parsedLoopback6 = true ∧ isPrivate parsedLoopback6 = false := by decide
